@@ -251,10 +251,13 @@ def check(case):
               require(same, "preconditioner-held", f"{tag} preconditioner {k} changed on a non-refresh step")
               continue
             err = nw["err"][k]
-            if same:
+            accepted = bool(np.isfinite(err) and err < thr)
+            if same and not accepted:
               kept += 1
               continue
-            require(np.isfinite(err) and err < thr, "preconditioner-accepted-only-below-threshold",
+            # an accepted root must be installed (bit-identical bytes are only possible if the statistics
+            # did not change; the comparison below covers that too)
+            require(accepted, "preconditioner-accepted-only-below-threshold",
                     f"{tag} preconditioner {k} replaced with reported error {err}")
             S = nw["stats"][k]
             nsz = S.shape[0]
@@ -308,7 +311,6 @@ def check(case):
                 lm = float(np.linalg.eigvalsh((S + S.T) / 2)[-1])
                 d = eps * max(lm, 1e-6 if o["eigh"] else 1e-25) if o["relative_matrix_epsilon"] else eps
                 root = ref.inverse_root(S, lay.exponent, d, clamp=bool(o["eigh"]))
-                root = root if root is not None else ref.inverse_root(S, lay.exponent, d, clamp=True)
                 newp.append(root if root is not None else np.eye(S.shape[0]))
               es["pres"] = newp
             ue, ef, _ = ref.transform(lay, o, g, pnp[i], es, es["pres"], c, lr)
